@@ -2,7 +2,11 @@ package main
 
 import (
 	"fmt"
+	"go/ast"
+	"go/types"
 	"math/big"
+	"sort"
+	"strings"
 )
 
 // TABLE(field constants): the precomputed constants of the Prio3 fields, read from their initialisers, have
@@ -113,5 +117,140 @@ func checkPrio3FieldTables(c *Ctx, p *Program, rule string) {
 		} else {
 			c.ok(rule, what("rootOfUnityTwoN[i]² = rootOfUnityTwoN[i-1], starting 1, -1"), fmt.Sprintf("%d entries: a chain of principal 2^i-th roots of unity modulo %s", len(rt), fd.modulus), "")
 		}
+	}
+}
+
+// checkBLSFieldTables: the constants of the BLS12-381 base and scalar fields (moduli of the specification,
+// (p+1)/2 for the sign convention, (p+1)/4 for square roots, r-2 for inversion, R² mod p and R² mod r).
+func checkBLSFieldTables(c *Ctx, p *Program, rule string) {
+	pkg := "ecc/bls12381/ff"
+	P, _ := new(big.Int).SetString("1a0111ea397fe69a4b1ba7b6434bacd764774b84f38512bf6730d2a0f6b0f6241eabfffeb153ffffb9feffffffffaaab", 16)
+	R, _ := new(big.Int).SetString("73eda753299d7d483339d80809a1d80553bda402fffe5bfeffffffff00000001", 16)
+	beBytes := func(name string) (*big.Int, error) {
+		ints, err := p.varInts(pkg, name)
+		if err != nil {
+			return nil, err
+		}
+		v := new(big.Int)
+		for _, s := range ints {
+			b, ok := new(big.Int).SetString(s, 10)
+			if !ok || b.Sign() < 0 || b.BitLen() > 8 {
+				return nil, fmt.Errorf("%s: %q is not a byte", name, s)
+			}
+			v.Lsh(v, 8).Or(v, b)
+		}
+		return v, nil
+	}
+	leWords := func(name string) (*big.Int, int, error) {
+		ints, err := p.varInts(pkg, name)
+		if err != nil {
+			return nil, 0, err
+		}
+		v := new(big.Int)
+		for i := len(ints) - 1; i >= 0; i-- {
+			w, ok := new(big.Int).SetString(ints[i], 10)
+			if !ok {
+				return nil, 0, fmt.Errorf("%s: %q is not an integer", name, ints[i])
+			}
+			v.Lsh(v, 64).Or(v, w)
+		}
+		return v, len(ints), nil
+	}
+	one, two := big.NewInt(1), big.NewInt(2)
+	for _, t := range []struct {
+		name, what string
+		want       *big.Int
+	}{
+		{"fpOrder", "fpOrder is the BLS12-381 base-field prime", P},
+		{"fpOrderPlus1Div2", "fpOrderPlus1Div2 = (p+1)/2", new(big.Int).Rsh(new(big.Int).Add(P, one), 1)},
+		{"fpOrderPlus1Div4", "fpOrderPlus1Div4 = (p+1)/4", new(big.Int).Rsh(new(big.Int).Add(P, one), 2)},
+		{"scOrder", "scOrder is the order of the BLS12-381 groups", R},
+		{"scOrderMinus2", "scOrderMinus2 = r-2", new(big.Int).Sub(R, two)},
+	} {
+		got, err := beBytes(t.name)
+		what := pkg + ": " + t.what
+		if err != nil {
+			c.undecided(rule, what, err.Error(), "")
+			continue
+		}
+		c.tableEq(rule, what, got.Text(16), t.want.Text(16), "")
+	}
+	for _, t := range []struct {
+		name string
+		mod  *big.Int
+	}{{"fpRSquare", P}, {"scRSquare", R}} {
+		got, n, err := leWords(t.name)
+		what := pkg + ": " + t.name + " = R² mod the field order"
+		if err != nil {
+			c.undecided(rule, what, err.Error(), "")
+			continue
+		}
+		r := new(big.Int).Lsh(one, uint(64*n))
+		want := new(big.Int).Mod(new(big.Int).Mul(r, r), t.mod)
+		c.tableEq(rule, what, got.Text(16), want.Text(16), "")
+	}
+}
+
+// checkDigestInfoPrefixes: the DER DigestInfo prefixes of EMSA-PKCS1-v1_5 (RFC 8017 9.2, note 1) as the
+// threshold-RSA padder stores them, per hash identifier.
+func checkDigestInfoPrefixes(c *Ctx, p *Program, rule string) {
+	want := map[string]string{
+		"crypto.MD5":    "30 20 30 0c 06 08 2a 86 48 86 f7 0d 02 05 05 00 04 10",
+		"crypto.SHA1":   "30 21 30 09 06 05 2b 0e 03 02 1a 05 00 04 14",
+		"crypto.SHA224": "30 2d 30 0d 06 09 60 86 48 01 65 03 04 02 04 05 00 04 1c",
+		"crypto.SHA256": "30 31 30 0d 06 09 60 86 48 01 65 03 04 02 01 05 00 04 20",
+		"crypto.SHA384": "30 41 30 0d 06 09 60 86 48 01 65 03 04 02 02 05 00 04 30",
+		"crypto.SHA512": "30 51 30 0d 06 09 60 86 48 01 65 03 04 02 03 05 00 04 40",
+	}
+	e, info := p.varInit("tss/rsa/internal", "hashPrefixes")
+	cl, ok := e.(*ast.CompositeLit)
+	if e == nil || !ok {
+		c.undecided(rule, "tss/rsa/internal.hashPrefixes: DigestInfo prefixes of RFC 8017", "the table is not initialised by a composite literal", "")
+		return
+	}
+	got := map[string]string{}
+	for _, el := range cl.Elts {
+		kv, ok := el.(*ast.KeyValueExpr)
+		if !ok {
+			continue
+		}
+		v, err := evalLit(kv.Value, info)
+		if err != nil {
+			got[types.ExprString(kv.Key)] = "(not a literal: " + err.Error() + ")"
+			continue
+		}
+		ints, ok := flatInts(v)
+		if !ok {
+			got[types.ExprString(kv.Key)] = "(not a literal)"
+			continue
+		}
+		var bs []string
+		for _, s := range ints {
+			n, _ := new(big.Int).SetString(s, 10)
+			if n == nil {
+				bs = append(bs, "??")
+				continue
+			}
+			bs = append(bs, fmt.Sprintf("%02x", n.Int64()))
+		}
+		got[types.ExprString(kv.Key)] = strings.Join(bs, " ")
+	}
+	var keys []string
+	for k := range want {
+		keys = append(keys, k)
+	}
+	sort.Strings(keys)
+	for _, k := range keys {
+		what := "tss/rsa/internal.hashPrefixes[" + k + "] is the DigestInfo prefix of RFC 8017 9.2"
+		g, ok := got[k]
+		if !ok {
+			c.bad(rule, what, "no entry for this hash", "")
+			continue
+		}
+		if strings.HasPrefix(g, "(not a literal") {
+			c.undecided(rule, what, "the entry is computed, not written out: its value cannot be read from the source "+g, "")
+			continue
+		}
+		c.tableEq(rule, what, g, want[k], "")
 	}
 }
